@@ -170,6 +170,40 @@ def derive_spec_job(case):
     return out
 
 
+def _refs_job(order):
+    """a YAML circuit whose nodes mix a full dotted reference into a library file and a short reference to a template of
+    its own file; both files define a template of that name (k = 1 in the library, k = 5 in the model file)"""
+    import os, sys, numpy as np, warnings
+    warnings.filterwarnings('ignore')
+    from pyrates import CircuitTemplate, clear_frontend_caches
+    os.makedirs('ypk', exist_ok=True); open('ypk/__init__.py', 'w').write('')
+    open('ypk/lib.yaml', 'w').write('lop:\n  base: OperatorTemplate\n  equations: "x\' = -k*x"\n  variables:\n    x: output(1.0)\n    k: 1.0\n'
+                                    'pop:\n  base: NodeTemplate\n  operators:\n    - lop\n')
+    entries = dict(full='ypk.lib.pop', short='pop')
+    nodes = ''.join(f'    n{i}: {entries[kind]}\n' for i, kind in enumerate(order))
+    open('ypk/model.yaml', 'w').write('pop:\n  base: NodeTemplate\n  operators:\n    ypk.lib.lop:\n      k: 5.0\n'
+                                      'net:\n  base: CircuitTemplate\n  nodes:\n' + nodes)
+    sys.path.insert(0, os.getcwd())
+    try:
+        clear_frontend_caches()
+        c = CircuitTemplate.from_yaml('ypk.model.net')
+        f, a, names, svm = c.get_run_func('vf', 1e-3, vectorize=False, verbose=False, clear=True, in_place=False, float_precision='float64')
+        dy = np.asarray(f(0, np.ones(len(order)), *a[2:]), dtype='float64')
+        return [float(-dy[int(np.ravel(svm[f'n{i}/lop/x'])[0])]) for i in range(len(order))]
+    except Exception as e:
+        return dict(exc=type(e).__name__, msg=str(e)[:200])
+
+
+def references(ctx):
+    orders = [['full', 'short'], ['short', 'full'], ['full', 'short', 'short'], ['short', 'full', 'short'], ['full', 'full', 'short']]
+    for order, o in zip(orders, run_cases(_refs_job, orders, timeout=120)):
+        ctx.case(key=['yaml-references', order]); ctx.replayed += 1
+        exp = [1.0 if kind == 'full' else 5.0 for kind in order]
+        if o != exp:
+            ctx.violation(dict(kind='conformance', what='short / dotted template references of a YAML circuit resolve to the wrong file',
+                               case=order, observed=o, expected=exp))
+
+
 def derive_spec(ctx):
     c = tlc.cfg(constants=dict(Dev=set()), invariants=['DerivedIsEdit', 'BaseUntouched', 'Export'])
     r = tlc.run_tlc('Derive', c, workers=8, defs=dict(Cases='DeriveCases'), timeout=1200)
@@ -231,6 +265,7 @@ def run(ctx):
         ctx.case(key=[e['text'], e['term']], nontrivial=e['hits'] >= 1)
     ctx.sample(dict(kind='replace', **eqs[len(eqs) // 2]))
     derive_spec(ctx)
+    references(ctx)
     # (B)
     progs = c01.tlc_programs(ctx, 'round-trip', 'Programs({"L", "P", "S"}, 1, 2, 2, {FALSE, TRUE})')
     rng = random.Random(ctx.seed); rng.shuffle(progs)
